@@ -126,6 +126,8 @@ impl WakerList {
 
     /// Register the waker
     pub(crate) fn register(&mut self, waker: &Waker) {
+        #[cfg(futures_buffered_verif)]
+        crate::verif::sched_point(0);
         // Safety:
         // Diatomic waker requires we do not concurrently run
         // "register", "unregister", and "wait_until".
@@ -153,6 +155,10 @@ impl WakerList {
     /// Note that this is unsafe as it required mutual exclusion (only one
     /// thread can call this) to be guaranteed elsewhere.
     pub(crate) unsafe fn pop(&self) -> ReadySlot<(usize, ManuallyDrop<Waker>)> {
+        #[cfg(futures_buffered_verif)]
+        crate::verif::sched_point(1);
+        #[cfg(futures_buffered_verif)]
+        let _sched_at_exit = crate::verif::SchedGuard(2);
         let queue = unsafe { &*ptr::addr_of!((*self.ptr.as_ptr()).queue) };
         match unsafe { queue.try_dequeue_unchecked() } {
             Ok(slot) => {
